@@ -252,12 +252,11 @@ fn parse_duration<V: AsRef<str> + Into<String>>(
         Err(e) => return Err(TypedResponseError::invalid_value(field, value.into()).source(e)),
     };
 
-    // Check if the parsed value is a reasonable duration, to avoid a panic from `from_secs_f64`
-    if v >= 0.0 && v <= Duration::MAX.as_secs_f64() && v.is_finite() {
-        Ok(Duration::from_secs_f64(v))
-    } else {
-        Err(TypedResponseError::invalid_value(field, value.into()))
-    }
+    // Negative, non-finite and too large values are rejected by the fallible conversion. Comparing
+    // with `Duration::MAX.as_secs_f64()` is not enough, as that rounds up to 2^64 seconds, which
+    // `from_secs_f64` panics on.
+    Duration::try_from_secs_f64(v)
+        .map_err(|_| TypedResponseError::invalid_value(field, value.into()))
 }
 
 /// Possible playback states.
